@@ -32,3 +32,32 @@ PROPS["C16"] = {
         {"func": "verifH_C16_limits", "pkg": "tlv", "params": {"N": list(range(0, 6))}, "params_thorough": {"N": list(range(0, 8))}, "unwind": 40, "expect_reach": ["ok"]},
     ],
 }
+
+PROPS["C18"] = {
+    "patterns": ["./mrz", "./password"],
+    "harness": {"mrz": ["mrz/c18.go"]},
+    "level_text": "TODO",
+    "level_note": "TODO",
+    "bounds": "",
+    "outside": "",
+    "jobs": [
+        {"func": "verifH_C18_cd_step", "pkg": "mrz", "params": {"N": list(range(0, 13))}, "params_thorough": {"N": list(range(0, 44))}, "unwind": 64, "canon8": True, "expect_reach": ["step"]},
+        {"func": "verifH_C18_sound", "pkg": "mrz", "params": {"layout": [1, 2, 3]}, "unwind": 100, "canon8": True, "stubs": ["mrz.ParseName:nondet"], "expect_reach": ["accepted", "rejected"]},
+        {"func": "verifH_C18_complete", "pkg": "mrz", "params": {"layout": [1, 2, 3]}, "unwind": 100, "canon8": True, "expect_reach": ["decoded"]},
+        {"func": "verifH_C18_routes", "pkg": "mrz", "params": {"layout": [1, 2, 3]}, "unwind": 100, "canon8": True, "stubs": ["mrz.ParseName:nondet"], "expect_reach": ["re-encoded"]},
+    ],
+}
+
+PROPS["C02"] = {
+    "patterns": ["./document"],
+    "harness": {"document": ["document/c02.go"]},
+    "exhaustive": True,
+    "level_text": "TODO",
+    "level_note": "TODO",
+    "bounds": "",
+    "outside": "",
+    "jobs": [
+        {"func": "verifH_C02_summary", "pkg": "document", "unwind": 16, "expect_reach": ["summary", "trusted", "AA", "CA", "PACE-CAM"]},
+        {"func": "verifH_C02_complete", "pkg": "document", "unwind": 16, "stubs": ["document.Contains:nondet"], "expect_reach": ["complete", "incomplete", "cardaccess-checked"]},
+    ],
+}
